@@ -73,6 +73,20 @@ func c20Lengths(r *vhlib.Run, counts []uint32, maxBits uint, bucket string, mode
 	if n == 1 {
 		if codes[0].Len != 0 {
 			r.Violate("single-symbol-length", fmt.Sprint(codes[0].Len), replay)
+			return
+		}
+		// the lone symbol is coded with zero bits: its value must be zero whatever the (recycled)
+		// array held, since writers OR the value into their bit buffer
+		codes[0].Val = uint32(1 + r.Rng.Intn(1<<20))
+		if err := prefix.GeneratePrefixes(codes); err != nil {
+			r.Violate("generate-prefixes-error", fmt.Sprint(err), replay)
+			return
+		}
+		if model {
+			r.Case("genpfx", []string{fmt.Sprintf("%d:%d", codes[0].Sym, codes[0].Len)}, fmt.Sprintf("ok %d:%d:%d", codes[0].Sym, codes[0].Len, codes[0].Val))
+		}
+		if codes[0].Val != 0 {
+			r.Violate("not-canonical-prefix-code", fmt.Sprintf("the zero-length code of a one-symbol alphabet has value %d", codes[0].Val), replay)
 		}
 		return
 	}
@@ -106,6 +120,11 @@ func c20Lengths(r *vhlib.Run, counts []uint32, maxBits uint, bucket string, mode
 	}
 	// canonical prefixes
 	codes.SortBySymbol()
+	// the code array is recycled by the callers (bzip2's codes2D): whatever an earlier code left in
+	// the Val fields must not show in this one
+	for i := range codes {
+		codes[i].Val = uint32(r.Rng.Intn(1 << 20))
+	}
 	if err := prefix.GeneratePrefixes(codes); err != nil {
 		r.Violate("generate-prefixes-error", fmt.Sprint(err), replay)
 		return
